@@ -126,3 +126,80 @@ def gen_logger_case(rng):
         ms.append(gen_emsg(rng, plain_symbols=True, macros=False) + [rng.choice(TEXTS)])
     g = rng.random() < 0.7
     return [g] + flat(nomsg) + flat(nofail) + flat(ms), len(nomsg), len(nofail), len(ms)
+
+
+# ------------------------------------------------------------------ how suppressions are given
+P_IDS = [b"nullPointer", b"uninitvar", b"*", b"null*", b"a", b"misra-c2012-10.1", b"", b"9lives", b"a b", b"a***", b"*?", b"id#1", b"x.y"]
+P_FILES = [b"a.c", b"src/f.cpp", b"c:/x/Makefile", b"c:/x/f.c", b"dir.d/Makefile", b"a.b:c", b"x:y.c", b"f#1.c", b"a//b.c", b"./a.c",
+           b"src/../a.c", b"*.c", b"src/**", b"a***.c", b"Makefile", b" a.c", b"a.c ", b""]
+P_LINES = [b"1", b"10", b"+3", b"-2", b"007", b"0", b"", b" 5", b"5 ", b"2147483647", b"2147483648", b"-2147483648", b"-2147483649",
+           b"x", b"1.5", b"0x10", b"12a", b"-", b"+", b"99999999999999999999", b"-0", b"+0", b"00"]
+P_TAILS = [b"", b"", b"", b" # c", b" // c", b"#c", b"\t//x", b"  \t # a:b.c", b" //", b"#"]
+P_EXTRAS = [b"", b"", b"", b"\nsymbol=foo", b"\nsymbol=", b"\npolyspace=1", b"\nbogus", b"\nsymbol=a\npolyspace=1", b"\nsymbol=a#b", b"\n"]
+
+
+def gen_pline(rng, extras=True):
+    if rng.random() < 0.25:
+        return bytes(rng.choices(b":.#/a1 \t\n-+*", weights=[4, 3, 1, 3, 4, 3, 2, 1, 1 if extras else 0, 1, 1, 1], k=rng.randint(0, 10)))
+    l = rng.choice(P_IDS)
+    r = rng.random()
+    if r < 0.75:
+        l += b":" + rng.choice(P_FILES)
+        if rng.random() < 0.5:
+            l += b":" + rng.choice(P_LINES)
+    l += rng.choice(P_TAILS)
+    if extras:
+        l += rng.choice(P_EXTRAS)
+    return l
+
+
+def gen_pfile(rng):
+    out = b""
+    for _ in range(rng.randint(0, 6)):
+        k = rng.random()
+        if k < 0.2:
+            out += gen_pline(rng, extras=False)
+        elif k < 0.55:
+            out += rng.choice(IDS[:4]) + rng.choice([b"", b":a.c", b":src/b.c", b":b.c:3", b":*.c", b":c.c:12"]) + rng.choice(P_TAILS)
+        elif k < 0.7:
+            out += rng.choice([b"# comment", b"   // c", b"\t#x", b"//", b" / /x", b"#"])
+        elif k < 0.85:
+            out += rng.choice([b"", b" ", b"\t \t", b"\x0b\x0c"])
+        else:
+            out += rng.choice([b"uninitvar", b"memleak:a.c", b"zerodiv:b.c:3"])
+        out += rng.choice([b"\n", b"\n", b"\r\n", b"\r", b"\n\n", b"\n\r"])
+    if out and rng.random() < 0.3:
+        out = out.rstrip(b"\r\n")
+    return out
+
+
+C_KW = [b"cppcheck-suppress", b"cppcheck-suppress", b"cppcheck-suppress-begin", b"cppcheck-suppress-end", b"cppcheck-suppress-file",
+        b"cppcheck-suppress-macro", b"cppcheck-suppres", b"cppcheck-suppress-foo", b"cppcheck-suppress[", b"CPPCHECK-SUPPRESS", b"cppcheck-suppress-"]
+C_ATTR = [b"symbolName=foo", b"symbolName=", b"symbolName=a,b", b"bogus", b"//", b"+", b"-*/", b"; note", b"// note", b";", b"symbolname=x",
+          b"symbolName=x;y", b"#", b"\xc3\xa4 text", b"; \xc3\xa4x \t"]
+
+
+def gen_pcomment(rng):
+    if rng.random() < 0.1:
+        return rng.choice([b"//", b"/**/", b"// ", b"/* */", b"//x", b"// cppcheck-suppress", b"//cppcheck-suppress "])
+    c = rng.choice([b"//", b"/*", b"///", b"/**"])
+    c += rng.choice([b" ", b"", b"  ", b"\t", b" \t "])
+    c += rng.choice(C_KW[:6]) if rng.random() < 0.8 else rng.choice(C_KW)
+    c += rng.choice([b" ", b" ", b"  ", b"\t", b""])
+    c += rng.choice([b"nullPointer", b"a", b"*", b"nullPointer", b"uninitvar", b"", b"id;x", b"a//b", b"[a,b]"])
+    for _ in range(rng.randint(0, 3)):
+        c += rng.choice([b" ", b"  ", b"\t", b""]) + rng.choice(C_ATTR)
+    if c.startswith(b"/*"):
+        c += rng.choice([b" */", b"*/", b" */ ", b""])
+    return c
+
+
+M_ITEMS = [b"a", b"  b ", b"c symbolName=x", b"", b" ", b"d bogus", b"e ; x", b"nullPointer", b"f\tsymbolName=y  symbolName=z", b"g +", b"h // c", b"*"]
+
+
+def gen_pmulti(rng):
+    c = rng.choice([b"// cppcheck-suppress[", b"// cppcheck-suppress[", b"/* cppcheck-suppress-begin[", b"// cppcheck-suppress [", b"// cppcheck-suppress", b"//[", b"[["])
+    items = M_ITEMS if rng.random() < 0.4 else [b"a", b"  b ", b"c symbolName=x", b"nullPointer", b"", b"g +", b"*", b"f\tsymbolName=y  symbolName=z"]
+    c += b",".join(rng.choice(items) for _ in range(rng.randint(0, 4)))
+    c += rng.choice([b"]", b"]", b"]", b"]", b"", b"] trailing, x", b"]]", b" ]", b"] */"])
+    return c
